@@ -500,8 +500,20 @@ def trace_mismatches(rej):
             raise ToolError(f"trace line {rej['line']} rejected although every logged field matches: the specification's "
                             f"self-checks failed (wf={exp.get('wf')}, partition={exp.get('partition')}, absok={exp.get('absok')})")
     elif exp["kind"] == "obs":
-        if exp["iter"] != ev["iter"] or len(ev["E"]) != len(exp["iter"]):
-            out.append(dict(base, kind="ret", e={"a": "Iter"}, expected=exp["iter"], got=ev["iter"]))
+        sweep = exp["iter"]            # the exact-match sweep, sorted by the specification
+        if not exp.get("ascending", True):
+            out.append(dict(base, kind="ret", e={"a": "Iter"}, expected="strictly ascending, each entry once", got=ev["iter"]))
+        elif exp.get("hasState"):
+            st = exp["stateE"]
+            if sweep != st:            # the contents are not what the history must have produced
+                out.append(dict(base, kind="ret", e={"a": "Get", "E": ev["E"]}, expected=st, got=sweep))
+            if ev["iter"] != st and sweep == st:   # contents right, iteration wrong
+                out.append(dict(base, kind="ret", e={"a": "Iter"}, expected=st, got=ev["iter"]))
+            elif ev["iter"] != sweep and sweep != st and ev["iter"] != st:
+                pass                    # both differ from the expected contents: the contents' owner (C01) reports
+        elif sweep != ev["iter"] or len(ev["E"]) != len(sweep):
+            # iteration and exact-match lookups disagree and nothing says who is right: not attributed
+            out.append(dict(base, kind="ret", e={"a": "IterVsSweep"}, expected=sweep, got=ev["iter"]))
         if exp["len"] != ev["len"] or ev["empty"] != (ev["len"] == 0):
             out.append(dict(base, kind="len_vs_iter", e={"a": "Len"}, expected=exp["len"], got=[ev["len"], ev["empty"]]))
         for qe, qg in zip(exp["qs"], ev["qs"]):
@@ -580,7 +592,7 @@ RET_OWNER = {
     "Contains": "C01", "Lpm": "C02", "Iter": "C03", "Len": "C04", "Spm": "C09", "Cover": "C09",
     "Children": "C10", "Retain": "C10", "RemoveChildren": "C10", "PathReplay": "C01",
     "ViewDesc": "C11", "Find": "C12", "ViewSet": "C01", "ViewRemove": "C01", "ViewValueMut": "C13", "ViewIterMut": "C13",
-    "SplitOp": "C06", "Misc": "C20", "CloneCheck": "C19", "Collect": "C19", "Serde": "C19", "Alias": "C14",
+    "IterVsSweep": "unattributed", "SplitOp": "C06", "Misc": "C20", "CloneCheck": "C19", "Collect": "C19", "Serde": "C19", "Alias": "C14",
     "Entry": "C01", "GetMut": "C01", "LpmMut": "C02", "IterMut": "C03", "ValuesMut": "C03", "ChildrenMut": "C10",
 }
 MUT_TRAVERSALS = {"GetMut", "LpmMut", "IterMut", "ValuesMut", "ChildrenMut", "ViewValueMut", "ViewIterMut"}
